@@ -45,7 +45,13 @@ func expandC08(t *testing.T, seed uint64, tier string) []*core.Plan {
 	tag := 0
 	n := r.Range(2, 16)
 	for i := 0; i < n; i++ {
-		switch r.Weighted([]int{10, 3, 2, 2, 3, 1}) {
+		switch r.Weighted([]int{10, 3, 2, 2, 3, 1, 1}) {
+		case 6:
+			// the subscriber connects again while its previous connection is
+			// still up (takeover), clean or not
+			if online {
+				p.Items = append(p.Items, core.Item{K: "takeover", A: b2i(r.Chance(1, 3))})
+			}
 		case 0:
 			tag++
 			p.Items = append(p.Items, core.Item{K: "pub", A: r.Pick(0, 1, 1, 2, 2), S: Topics[r.Intn(len(Topics))], D: tag})
@@ -150,6 +156,11 @@ func runC08(t *testing.T, p *core.Plan) *core.Result {
 				}
 				sub.connect(it.A == 1, deferAcks)
 				arm()
+			case "takeover":
+				if sub.cur != nil && !sub.cur.EOF {
+					sub.connect(it.A == 1, deferAcks)
+					arm()
+				}
 			case "sub":
 				if sub.cur != nil && !sub.cur.EOF {
 					sp := packet.NewSubscribe()
@@ -185,7 +196,7 @@ func runC08(t *testing.T, p *core.Plan) *core.Result {
 					sub.cur.Drop()
 				}
 			}
-			if !loose || it.K == "settle" || it.K == "connect" {
+			if !loose || it.K == "settle" || it.K == "connect" || it.K == "takeover" {
 				w.Settle()
 			} else {
 				w.Nudge(2)
@@ -274,6 +285,7 @@ func judgeC08(w *World, sub *subscriber, src *Peer, p *core.Plan, res *core.Resu
 	}
 	var accs []*acc
 	gen := 0
+	connGen := map[int]int{}
 	totalQ := 0
 	for _, c := range calls {
 		switch {
@@ -293,13 +305,16 @@ func judgeC08(w *World, sub *subscriber, src *Peer, p *core.Plan, res *core.Resu
 					gen++
 				}
 			}
+			connGen[c.C] = gen
 		case c.Call == "Subscribe" && c.CID == "sub" && c.Err == nil:
 			for _, s := range c.P.(*packet.Subscribe).Subscriptions {
 				st.subs[s.Topic] = int(s.QOS)
 			}
 		case c.Call == "Terminate" && c.CID == "sub":
-			if !st.stored {
-				// a temporary (clean) session dies with its connection
+			if !st.stored && connGen[c.C] == gen {
+				// a temporary (clean) session dies with its connection (the
+				// Terminate of a connection that was taken over does not touch
+				// the newcomer's session)
 				st = &sessState{subs: map[string]int{}}
 				gen++
 			}
@@ -367,7 +382,7 @@ func judgeC08(w *World, sub *subscriber, src *Peer, p *core.Plan, res *core.Resu
 				}
 				genOfConn[c.C] = g
 			}
-			if c.Call == "Terminate" && c.CID == "sub" && !stored {
+			if c.Call == "Terminate" && c.CID == "sub" && !stored && genOfConn[c.C] == g {
 				g++
 			}
 		}
@@ -530,6 +545,7 @@ func judgeC08(w *World, sub *subscriber, src *Peer, p *core.Plan, res *core.Resu
 func finalGenOf(calls []*BkCall) int {
 	g := 0
 	stored := false
+	of := map[int]int{}
 	for _, c := range calls {
 		if c.Call == "Setup" && c.CID == "sub" && c.Err == nil {
 			if c.Clean {
@@ -539,8 +555,9 @@ func finalGenOf(calls []*BkCall) int {
 				g++
 				stored = true
 			}
+			of[c.C] = g
 		}
-		if c.Call == "Terminate" && c.CID == "sub" && !stored {
+		if c.Call == "Terminate" && c.CID == "sub" && !stored && of[c.C] == g {
 			g++
 		}
 	}
